@@ -440,11 +440,46 @@ def currently_exiting_context(frame: types.FrameType) -> Optional[ExitingContext
         # - if the with stmt has no body, there might be a NOP to attach
         #   line number information to
         # Neither of these are covered by the exception handler block.
-        for _, end, target, *_ in _parse_exception_table(frame.f_code):
-            if end == offs or (
-                end == offs - 2 and code[offs] in (op["SWAP"], op["NOP"])
+        #
+        # That rule describes the common layout, but not every layout: the
+        # __exit__ call might be reached by a jump rather than by falling
+        # into it (e.g. if the body ends with 'if x: return'), and the last
+        # instruction of the body might be covered by a handler for a 'try'
+        # nested inside the 'with' body. What's true in general is that every
+        # instruction from which control reaches the __exit__ call is part
+        # of the with block's body, so the innermost 'with' exception handler
+        # on its chain of enclosing handlers is the one we're looking for.
+        table = list(_parse_exception_table(frame.f_code))
+        entry_points = {offs + 2}
+        while offs > 0 and code[offs] in (op["SWAP"], op["NOP"]):
+            entry_points.add(offs)
+            offs -= 2
+        while offs > 0 and code[offs] == op["CACHE"]:
+            offs -= 2
+        predecessors = []
+        for insn in dis.get_instructions(frame.f_code):
+            if insn.offset == offs and insn.opname not in (
+                # fmt: off
+                "RETURN_VALUE", "RETURN_CONST", "RERAISE", "RAISE_VARARGS",
+                "JUMP_FORWARD", "JUMP_BACKWARD", "JUMP_BACKWARD_NO_INTERRUPT",
+                # fmt: on
             ):
-                return ExitingContext(is_async=is_async, cleanup_offset=target)
+                predecessors.append(insn.offset)
+            elif insn.opcode in dis.hasjrel and insn.argval in entry_points:
+                predecessors.append(insn.offset)
+        for current in predecessors:
+            for _ in range(len(table) + 1):  # pragma: no branch
+                for start, end, target, *_ in table:
+                    if start <= current <= end:
+                        break
+                else:
+                    break
+                if (
+                    code[target] == op["PUSH_EXC_INFO"]
+                    and code[target + 2] == op["WITH_EXCEPT_START"]
+                ):
+                    return ExitingContext(is_async=is_async, cleanup_offset=target)
+                current = target
         warnings.warn(
             f"Surprise during analysis of {frame.f_code!r}: couldn't find an "
             f"exception table entry ending at {offs} just before the call to "
